@@ -18,18 +18,20 @@ import (
 
 // Errnos lists, per system call, the errors that are injected (the first one only in the quick tier).
 var Errnos = map[string][]syscall.Errno{
-	"openat":     {syscall.EMFILE, syscall.EACCES, syscall.ENOSPC},
-	"write":      {syscall.ENOSPC, syscall.EIO, syscall.EDQUOT},
-	"pwrite64":   {syscall.ENOSPC, syscall.EIO},
-	"fchmod":     {syscall.EPERM, syscall.EIO},
-	"fchmodat":   {syscall.EPERM},
-	"chmod":      {syscall.EPERM},
-	"fsync":      {syscall.EIO, syscall.ENOSPC},
-	"fdatasync":  {syscall.EIO},
-	"close":      {syscall.EIO, syscall.EDQUOT},
-	"rename":     {syscall.EACCES, syscall.EXDEV, syscall.ENOSPC},
-	"renameat":   {syscall.EACCES, syscall.EXDEV, syscall.ENOSPC},
-	"renameat2":  {syscall.EACCES, syscall.EXDEV},
+	"openat":    {syscall.EMFILE, syscall.EACCES, syscall.ENOSPC},
+	"write":     {syscall.ENOSPC, syscall.EIO, syscall.EDQUOT},
+	"pwrite64":  {syscall.ENOSPC, syscall.EIO},
+	"fchmod":    {syscall.EPERM, syscall.EIO},
+	"fchmodat":  {syscall.EPERM},
+	"chmod":     {syscall.EPERM},
+	"fsync":     {syscall.EIO, syscall.ENOSPC},
+	"fdatasync": {syscall.EIO},
+	"close":     {syscall.EIO, syscall.EDQUOT},
+	// (the step that installs the new file is visited with every errno in both tiers: programs like to
+	// special-case what it reports - EBUSY for a bind-mounted file, EXDEV for another file system ...)
+	"rename":     {syscall.EACCES, syscall.EXDEV, syscall.ENOSPC, syscall.EBUSY, syscall.EROFS, syscall.EPERM},
+	"renameat":   {syscall.EACCES, syscall.EXDEV, syscall.ENOSPC, syscall.EBUSY, syscall.EROFS, syscall.EPERM},
+	"renameat2":  {syscall.EACCES, syscall.EXDEV, syscall.EBUSY, syscall.EROFS, syscall.EPERM},
 	"newfstatat": {syscall.EACCES},
 	"stat":       {syscall.EACCES},
 	"unlinkat":   {syscall.EIO},
@@ -44,7 +46,7 @@ func Faults(trace []sysfault.Event, thorough bool) []sysfault.Fault {
 	for _, e := range trace {
 		out = append(out, sysfault.Fault{Kind: sysfault.KillBefore, At: e.Idx}, sysfault.Fault{Kind: sysfault.KillAfter, At: e.Idx})
 		errs := Errnos[e.Name]
-		if !thorough && len(errs) > 1 {
+		if !thorough && len(errs) > 1 && !strings.HasPrefix(e.Name, "rename") {
 			errs = errs[:1]
 		}
 		for _, en := range errs {
